@@ -155,18 +155,21 @@ pub enum Op {
     /// right password on a blob whose header declares 0 passes / iterations (and 4 GiB of memory for k2/k4): fails
     /// inside the derivation, before any tag is compared
     PwUnwrapDegenerateCost,
+    /// `LocalKey::seal` to the shared recipient public key (two key objects in one operation)
+    SealToShared,
 }
 
 pub const OPS_SCHED: [Op; 9] = [Op::Sign, Op::VerifyGood, Op::VerifyForged, Op::Encrypt, Op::DecryptForged, Op::DecryptCallbacks, Op::CloneDrop, Op::PublicKey, Op::WrapPie];
-pub const OPS_HIST: [Op; 21] = [Op::Sign, Op::VerifyGood, Op::VerifyForged, Op::Encrypt, Op::DecryptGood, Op::DecryptForged, Op::CloneDrop, Op::Id, Op::WrapPie, Op::UnwrapBad, Op::PwUnwrapWrongPassword, Op::UnsealWrongRecipient, Op::Expose, Op::UnwrapGood, Op::PwUnwrapGood, Op::PwUnwrapTamperedCost, Op::UnsealGood, Op::UnsealTampered, Op::VerifyZeroFirstHalf, Op::VerifyZeroSecondHalf, Op::PwUnwrapDegenerateCost];
+pub const OPS_HIST: [Op; 22] = [Op::Sign, Op::VerifyGood, Op::VerifyForged, Op::Encrypt, Op::DecryptGood, Op::DecryptForged, Op::CloneDrop, Op::Id, Op::WrapPie, Op::UnwrapBad, Op::PwUnwrapWrongPassword, Op::UnsealWrongRecipient, Op::Expose, Op::UnwrapGood, Op::PwUnwrapGood, Op::PwUnwrapTamperedCost, Op::UnsealGood, Op::UnsealTampered, Op::VerifyZeroFirstHalf, Op::VerifyZeroSecondHalf, Op::PwUnwrapDegenerateCost, Op::SealToShared];
 /// first uses of a key object that has never been used (cold start), raced pairwise
-pub const OPS_COLD: [Op; 11] = [Op::Sign, Op::VerifyGood, Op::VerifyForged, Op::Encrypt, Op::DecryptGood, Op::CloneDrop, Op::PublicKey, Op::Id, Op::WrapPie, Op::UnsealGood, Op::Expose];
+pub const OPS_COLD: [Op; 12] = [Op::SealToShared, Op::Sign, Op::VerifyGood, Op::VerifyForged, Op::Encrypt, Op::DecryptGood, Op::CloneDrop, Op::PublicKey, Op::Id, Op::WrapPie, Op::UnsealGood, Op::Expose];
 
 pub struct Shared<V: Full> {
     local: LocalKey<V>,
     secret: SecretKey<V>,
     public: PublicKey<V>,
     pke_secret: paseto_core::key::Key<V, paseto_core::version::PkeSecret>,
+    pke_public: paseto_core::key::Key<V, paseto_core::version::PkePublic>,
     fx: Arc<Fx>,
 }
 impl<V: Full> std::ops::Deref for Shared<V> {
@@ -182,6 +185,7 @@ pub struct Fx {
     secret_b: Vec<u8>,
     public_b: Vec<u8>,
     pke_secret_b: Vec<u8>,
+    pke_public_b: Vec<u8>,
     good_signed: String,
     good_encrypted: String,
     forged_signed: String,
@@ -261,6 +265,7 @@ fn fixtures<V: Full>() -> Arc<Fx> {
             secret_b: ks.secrets[0].bytes.clone(),
             public_b: public_b.clone(),
             pke_secret_b: ks.pke[0].0.bytes.clone(),
+            pke_public_b: ks.pke[0].1.bytes.clone(),
             good_signed,
             good_encrypted,
             forged_signed,
@@ -290,6 +295,7 @@ pub fn make_shared<V: Full>() -> Shared<V> {
         secret: keys::secret::<V>(&fx.secret_b),
         public: keys::public::<V>(&fx.public_b),
         pke_secret: keys::key::<V, paseto_core::version::PkeSecret>(&fx.pke_secret_b),
+        pke_public: keys::key::<V, paseto_core::version::PkePublic>(&fx.pke_public_b),
         fx,
     }
 }
@@ -381,6 +387,13 @@ pub fn run_op<V: Full>(op: Op, k: &Shared<V>) -> Res {
             Op::UnwrapGood => Res::Exact(k.good_pie.parse::<paseto_core::paserk::PieWrappedKey<V, Local>>().and_then(|p| p.unwrap(&k.local)).map(|x| hex::encode(keys::key_bytes(&x))).unwrap_or_else(e)),
             Op::PwUnwrapGood => Res::Exact(pk::pw_unwrap::<V, Local>(&k.pw_blob, b"right").map(hex::encode).unwrap_or_else(e)),
             Op::PwUnwrapTamperedCost => Res::Exact(pk::pw_unwrap::<V, Local>(&k.pw_tampered_cost, b"right").map(hex::encode).unwrap_or_else(e)),
+            Op::SealToShared => match k.local.clone().seal(&k.pke_public) {
+                Ok(sealed) => {
+                    let s = sealed.to_string();
+                    Res::Valid(s.parse::<paseto_core::paserk::SealedKey<V>>().and_then(|p| p.unseal(&k.pke_secret)).map(|x| keys::key_bytes(&x) == keys::key_bytes(&k.local)).unwrap_or(false))
+                }
+                Err(x) => Res::Exact(e(x)),
+            },
             Op::PwUnwrapDegenerateCost => Res::Exact(pk::pw_unwrap::<V, Local>(&k.pw_degenerate_cost, b"right").map(hex::encode).unwrap_or_else(e)),
             Op::UnsealGood => {
                 let s: paseto_core::paserk::SealedKey<V> = k.own_seal.parse().unwrap();
@@ -737,7 +750,7 @@ fn stress<V: Full>(prop: &mut Property, ctx: &Ctx) {
     prop.subs.push(Sub::new(format!("{name}/free-running-stress"), 1, format!("ADVISORY / SAMPLING (not exhaustive): 16 free-running OS threads x {iters} iterations of mixed operations on one shared key, same differential oracle as the scheduled runs (deterministic results byte-equal to the sequential run, randomised ones must verify)"), move |_, describe| {
         let k = Arc::new(make_shared::<V>());
         let mut o = Outcome::new();
-        let ops_all: Vec<Op> = vec![Op::Sign, Op::VerifyGood, Op::VerifyForged, Op::Encrypt, Op::DecryptGood, Op::DecryptForged, Op::CloneDrop, Op::PublicKey, Op::Id, Op::WrapPie, Op::UnwrapBad, Op::Expose];
+        let ops_all: Vec<Op> = vec![Op::SealToShared, Op::SealToShared, Op::Sign, Op::VerifyGood, Op::VerifyForged, Op::Encrypt, Op::DecryptGood, Op::DecryptForged, Op::CloneDrop, Op::PublicKey, Op::Id, Op::WrapPie, Op::UnwrapBad, Op::Expose];
         let mut handles = Vec::new();
         for tid in 0..16usize {
             let (k, ops_all) = (k.clone(), ops_all.clone());
